@@ -1,5 +1,5 @@
 import Vore.Driver.Print
-import Vore.Model.Lexer
+import Vore.Model.LexSource
 /-!
 # Vore.Driver.OpsLex — model side of the token-level correspondence (L1)
 
@@ -26,8 +26,9 @@ def outcomeStr : LexOutcome → String
 def handleLex (op : String) (fields : List String) : Option String :=
   match op, fields with
   | "lex", src :: _ =>
+    -- `lexSource`: the byte model on the class image of the decoded runes (= `lex` on ASCII sources)
     match unhex src with
-    | some s => some (outcomeStr (lex s))
+    | some s => some (outcomeStr (lexSource s))
     | none => some "BADCASE"
   | "strlit", src :: _ =>
     match unhex src with
